@@ -16,13 +16,14 @@ entry's format flags), so "un-applied, un-ignored" is `ignored = false`.
 -/
 import FontVerif.Lemmas.PatchMap
 import FontVerif.Lemmas.PatchGroup
+import FontVerif.Lemmas.PatchMapF1
 set_option linter.unusedVariables false
 namespace FontVerif.C19
 open FontVerif FontVerif.PatchMap FontVerif.PatchGroup FontVerif.UriTemplate
 
 /-- an offered uri without the recorded intersection size (which legitimately depends on the
 definition): template, id, format, source table, compat id, application bit -/
-def stripInfo (u : PatchUri) : PatchUri := { u with info := IntersectionInfo.zero }
+abbrev stripInfo (u : PatchUri) : PatchUri := u.strip
 
 /-! ## (1) monotonicity and containment in the all-inclusive definition -/
 
@@ -132,6 +133,117 @@ theorem table_offer_exact (tag : TableTag) (t : F2Table) (d : SubsetDef) (us : L
     intro i
     simp only [stripInfo, offeredUri]
     split <;> rfl
+
+/-! ## (1b, 2b) format 1 and whole fonts
+
+`FeatureSet.sorted`: the explicit tag list is strictly ascending (how `BTreeSet<Tag>` iterates).
+`glyphKey t pairs k`: some requested (codepoint, glyph) pair maps to entry `k` through the glyph map
+(entry 0 below `first_mapped_glyph`, else `entry_index[gid - first]` if ≤ `max_glyph_map_entry_index`).
+`fires t G r cum i k`: entry-map record `i` of feature record `r` is valid, its range
+`first..=last` contains an entry of `G`, and it names entry `k = first_new_entry_index + i`. -/
+
+/-- **feature_records_used.**  Closed form of the two-pointer loop over requested tags × feature
+records: a feature record is used **iff** its tag is requested and strictly larger than the tags
+of all records before it (the specification's "sorted; out-of-order and duplicate records are
+skipped"); `cum` is the number of entry-map records before it.  Same for "all features". -/
+theorem feature_records_used (tags : List Nat) (hs : tags.Pairwise (· < ·)) (recs : List FeatRec) :
+    featLoopSet tags recs 0 none = recHigh (fun x => decide (x ∈ tags)) recs 0 none ∧
+    featLoopAll recs 0 none = recHigh (fun _ => true) recs 0 none := by
+  refine ⟨featLoopSet_eq tags recs 0 none none ?_, featLoopAll_eq recs 0 none⟩
+  constructor
+  · exact hs
+  · intro _ _ m hm; cases hm
+  · intro _ _ l hl; cases hl
+  · intro _ _ _; constructor <;> intro h <;> cases h
+
+/-- **format1_offer_exact.**  A successful `add_intersecting_format1_patches` offers exactly the
+entries `k` with `k > 0` (entry 0 = already in the font), application bit clear, that are either
+glyph-map entries of a requested codepoint or are named by a firing entry-map record of a used
+feature record; the uri is (template, id k, the table's format, bit = bitmap start·8 + k). -/
+theorem format1_offer_exact (tag : TableTag) (t : F1Table) (d : SubsetDef) (us : List PatchUri)
+    (h : intersectF1 tag t d = .ok us) :
+    ∃ enc, PatchFormat.ofNumber t.patchFormat = some enc ∧
+      ∀ u, u ∈ us → ∃ k, k > 0 ∧ isEntryApplied t.bitmap k = false ∧
+        stripInfo u = { template := t.template, id := .num k, enc := enc, table := tag,
+                        compat := t.compat, bit := t.bitmapStart * 8 + k,
+                        info := IntersectionInfo.zero } ∧
+        let G := glyphKey t (t.cmap.filter fun (p : Nat × Nat) => rMem (p.1 : Int) d.cps)
+        (G k ∨ (t.hasFeatureMap = true ∧ ∃ q, q ∈ selectedRecs t d.feats ∧
+            ∃ i, i ∈ List.range q.1.count ∧ fires t G q.1 q.2 i k)) := by
+  obtain ⟨enc, gm, entries, henc, hgm, hent, hus⟩ := intersectF1_ok h
+  refine ⟨enc, henc, ?_⟩
+  intro u hu
+  obtain ⟨p, hp, hp0, hpa, hstrip, _⟩ := (hus u).1 hu
+  refine ⟨p.1, hp0, hpa, hstrip, ?_⟩
+  have hG : ∀ k, hasKey gm k ↔ glyphKey t (t.cmap.filter fun (p : Nat × Nat) => rMem (p.1 : Int) d.cps) k := by
+    intro k
+    rw [glyphMapLoop_keys t _ _ [] gm hgm k]
+    simp [hasKey]
+  have hkey : hasKey entries p.1 := ⟨p, hp, rfl⟩
+  rw [featureMap_keys t _ _ gm entries hent] at hkey
+  simp only []
+  rcases hkey with hk | ⟨hfm, q, hq, i, hi, hf⟩
+  · exact Or.inl ((hG _).1 hk)
+  · exact Or.inr ⟨hfm, q, hq, i, hi, fires_mono t (fun k hk => (hG k).1 hk) _ _ _ _ hf⟩
+
+/-- **format1_offer_monotone.**  Format 1: when the definition grows (codepoints, features) and
+both calls succeed, every offered entry stays offered.  (A larger definition may *fail* where the
+smaller one succeeds: a requested codepoint whose glyph is beyond the glyph map is `OutOfBounds`.) -/
+theorem format1_offer_monotone (tag : TableTag) (t : F1Table) (d d' : SubsetDef)
+    (hle : SubsetDef.le d d') (hs : d.feats.sorted) (hs' : d'.feats.sorted)
+    (us us' : List PatchUri) (h : intersectF1 tag t d = .ok us) (h' : intersectF1 tag t d' = .ok us') :
+    ∀ u, u ∈ us → ∃ u', u' ∈ us' ∧ stripInfo u' = stripInfo u :=
+  intersectF1_mono tag t d d' hle hs hs' us us' h h'
+
+/-- **font_offer_monotone.**  `intersecting_patches` on a whole font (each of 'IFT ' / 'IFTX'
+absent, format 1 or format 2, any contents): if it succeeds for `d` and for a larger `d'`, every
+uri offered for `d` is offered for `d'` (same template / id / format / table / compat id /
+application bit). -/
+theorem font_offer_monotone (ift iftx : MapTable) (d d' : SubsetDef) (hle : SubsetDef.le d d')
+    (hs : d.feats.sorted) (hs' : d'.feats.sorted) (us us' : List PatchUri)
+    (h : intersectingPatches ift iftx d = .ok us) (h' : intersectingPatches ift iftx d' = .ok us') :
+    ∀ u, u ∈ us → ∃ u', u' ∈ us' ∧ stripInfo u' = stripInfo u := by
+  have htab : ∀ (tag : TableTag) (m : MapTable) (a a' : List PatchUri),
+      intersectTable tag d m = .ok a → intersectTable tag d' m = .ok a' →
+      ∀ u, u ∈ a → ∃ u', u' ∈ a' ∧ stripInfo u' = stripInfo u := by
+    intro tag m a a' ha ha'
+    cases m with
+    | none => simp only [intersectTable] at ha; cases ha; intro u hu; cases hu
+    | f1 t => exact intersectF1_mono tag t d d' hle hs hs' a a' ha ha'
+    | f2 t =>
+      obtain ⟨a'', h1, h2⟩ := table_offer_monotone tag t d d' hle a ha
+      simp only [intersectTable] at ha'
+      rw [h1] at ha'; cases ha'
+      exact h2
+  unfold intersectingPatches at h h'
+  split at h
+  · cases h
+  · next a ha =>
+    split at h
+    · cases h
+    · next b hb =>
+      cases h
+      split at h'
+      · cases h'
+      · next a' ha' =>
+        split at h'
+        · cases h'
+        · next b' hb' =>
+          cases h'
+          intro u hu
+          rcases List.mem_append.1 hu with hu | hu
+          · obtain ⟨u', hu', he⟩ := htab .ift ift a a' ha ha' u hu
+            exact ⟨u', List.mem_append_left _ hu', he⟩
+          · obtain ⟨u', hu', he⟩ := htab .iftx iftx b b' hb hb' u hu
+            exact ⟨u', List.mem_append_right _ hu', he⟩
+
+/-- **font_offer_subset_all.**  … and is contained in the offer for `SubsetDefinition::all()`. -/
+theorem font_offer_subset_all (ift iftx : MapTable) (d : SubsetDef) (hd : d.cpsInDomain)
+    (hs : d.feats.sorted) (us us' : List PatchUri)
+    (h : intersectingPatches ift iftx d = .ok us)
+    (h' : intersectingPatches ift iftx SubsetDef.allDef = .ok us') :
+    ∀ u, u ∈ us → ∃ u', u' ∈ us' ∧ stripInfo u' = stripInfo u :=
+  font_offer_monotone ift iftx d _ (SubsetDef.le_all d hd) hs trivial us us' h h'
 
 /-! ## (3) the selected group
 
@@ -457,6 +569,29 @@ example : (match applyNext (F := Unit) (some (.full ⟨[48], .ift, 7, 100⟩)) (
 un-applies the uri, so the termination measure of `extension_terminates` is lost -/
 example : appliedCount (fetchOverwrite (fun _ => []) [([48], .applied)] [[48]]) = 0 ∧
     appliedCount (fetchMissing (fun _ => []) [([48], .applied)] [[48]]) = 1 := by decide
+
+/-- a format-1 table: glyphs 1, 2 ↦ entries 1, 2; feature record (tag 5) adds entry 3 when entry 1 is hit -/
+private def sampleF1 : F1Table :=
+  { compat := 9, maxEntry := 3, maxGm := 2, glyphCount := 3, maxpGlyphs := 3, bitmapStart := 36,
+    bitmap := [0], template := [123, 105, 100, 125], utf8Ok := true, patchFormat := 3, firstGid := 0,
+    entryIndex := [0, 1, 2], hasFeatureMap := true, featRecs := [⟨5, 3, 1⟩], entryMaps := [(1, 1)],
+    entryMapBytes := 2, cmap := [(65, 1), (66, 2)] }
+
+private def idsOf : Except String (List PatchUri) → List Nat
+  | .ok us => us.map fun u => match u.id with | .num n => n | .str _ => 0
+  | .error _ => [99]
+
+example : idsOf (intersectF1 .ift sampleF1 ⟨[(65, 65)], .set [5], .ranges []⟩) = [1, 3] := by decide +kernel
+example : idsOf (intersectF1 .ift sampleF1 ⟨[(65, 65)], .set [], .ranges []⟩) = [1] := by decide +kernel
+example : idsOf (intersectF1 .ift sampleF1 ⟨[(66, 66)], .set [5], .ranges []⟩) = [2] := by decide +kernel
+example : idsOf (intersectF1 .ift sampleF1 SubsetDef.allDef) = [1, 2, 3] := by decide +kernel
+/-- applied entries are not offered (bit 1 of the bitmap set) -/
+example : idsOf (intersectF1 .ift { sampleF1 with bitmap := [2] } SubsetDef.allDef) = [2, 3] := by decide +kernel
+/-- out-of-order feature records are skipped: only the strict running maxima 3 and 7 are used -/
+example : (featLoopAll [⟨3, 0, 1⟩, ⟨2, 0, 2⟩, ⟨3, 0, 4⟩, ⟨7, 0, 8⟩] 0 none).map (fun q => (q.1.tag, q.2))
+    = [(3, 0), (7, 7)] := by decide +kernel
+example : (featLoopSet [2, 3, 7] [⟨3, 0, 1⟩, ⟨2, 0, 2⟩, ⟨3, 0, 4⟩, ⟨7, 0, 8⟩] 0 none).map
+    (fun q => (q.1.tag, q.2)) = [(3, 0), (7, 7)] := by decide +kernel
 
 end Examples
 
